@@ -257,9 +257,12 @@ func (p *Pool) Bin(op Op, a, b *Term) *Term {
 		if b.IsConst() {
 			return p.Bin(OpAdd, a, p.BV(-b.Val, w))
 		}
-		// (x + c) - x -> c
+		// (x + c) - x -> c ; (c + x) - x -> c
 		if a.Op == OpAdd && a.Args[0] == b {
 			return a.Args[1]
+		}
+		if a.Op == OpAdd && a.Args[1] == b {
+			return a.Args[0]
 		}
 		// (x + c1) - (x + c2)
 		if a.Op == OpAdd && b.Op == OpAdd && a.Args[0] == b.Args[0] && a.Args[1].IsConst() && b.Args[1].IsConst() {
